@@ -94,6 +94,11 @@ func runDownFamily(s *Sim, prop string) {
 		for k := 0; k < npre; k++ {
 			sp.PreIDs = append(sp.PreIDs, dataID(k))
 		}
+		if npre > 0 && t.Bool("pre-id-twice", 1, 4) {
+			// the application's list of pre-registered ids may name one id twice
+			sp.PreIDs = append(sp.PreIDs, sp.PreIDs[0])
+			s.Stat("env.pre-registered-id-twice")
+		}
 		op := s.Start(0, y.openDownOp(sp))
 		s.Wait()
 		y.Pump()
@@ -149,13 +154,13 @@ func runDownFamily(s *Sim, prop string) {
 			}
 			if s.Idle(rt) {
 				acts = append(acts, Action{Name: fmt.Sprintf("read d%d", i), W: 9, Do: func() {
-				op := y.readOp(h)
-				if t.Bool("read-with-ended-context", 1, 8) {
-					op.CtxKind = "expired" // returns an error or the next chunk, never disturbs the order
-					s.Stat("env.read-with-ended-context")
-				}
-				s.Start(rt, op)
-			}})
+					op := y.readOp(h)
+					if t.Bool("read-with-ended-context", 1, 8) {
+						op.CtxKind = "expired" // returns an error or the next chunk, never disturbs the order
+						s.Stat("env.read-with-ended-context")
+					}
+					s.Start(rt, op)
+				}})
 			}
 			if s.Idle(mt) {
 				acts = append(acts, Action{Name: fmt.Sprintf("read-meta d%d", i), W: 2, Do: func() { s.Start(mt, y.readMetaOp(h)) }})
@@ -371,8 +376,11 @@ func (dc *downCtx) emit(h *downH, bad bool) {
 			sg.Points = append(sg.Points, pt{ID: id, Elapsed: time.Duration(n) * time.Microsecond,
 				Payload: fmt.Sprintf("d%d|%s|%s|%d", h.Idx, r.Info.SessionID, id.Name, n)})
 		}
-		if a := h.B.AliasOfData(id); a != 0 && t.Bool("e-idalias", 2, 3) {
-			sg.Alias = a
+		if as := h.B.AliasesOfData(id); len(as) > 0 && t.Bool("e-idalias", 2, 3) {
+			sg.Alias = as[0]
+			if len(as) > 1 {
+				sg.Alias = as[t.Choose("e-which-alias", len(as))] // any alias the client announced for it
+			}
 		}
 		groups = append(groups, sg)
 	}
